@@ -1,19 +1,25 @@
 """C17 -- backend selection behaves as a per-thread stack over a shared default.
 
-Correspondence: Model/Backend.v (one machine for tensorly.backend's BackendManager and tensorly.tenalg's
-TenalgBackendManager) vs the real managers driven through REAL threads: every actor thread owns a command
-queue, the driver issues one operation at a time in history order and after EVERY operation collects from
-EVERY thread (a) get_backend() and (b) the identity of the object that executes a dynamically dispatched
-call made in that thread (marker method on backend subclasses / marker attribute on the stock instances),
-plus current_backend() and the dispatched attribute backend_name as further dispatch routes.  The model runs
+Correspondence: Model/Backend.v (ONE machine, instantiated twice side by side: tensorly.backend's BackendManager and
+tensorly.tenalg's TenalgBackendManager) vs the real managers driven through REAL threads: every actor thread owns a
+command queue, the driver issues one operation at a time in history order and after EVERY operation collects from
+EVERY thread (a) get_backend() and (b) the identity of the object that executes a dynamically dispatched call made
+in that thread (marker method on backend subclasses / marker attribute on the stock instances), plus
+current_backend() and the dispatched attribute backend_name as further dispatch routes.  In the mixed groups the
+operations of one history go to BOTH managers and every thread reports what it sees through both.  The model runs
 the same history inside Coq (vm_compute) issuing its own Query / Dispatch operations; everything is compared
-exactly.  Predicates (transcriptions of the theorems) are evaluated on the implementation's observations:
-view, selection, isolation, restore, rejection, query/dispatch consistency."""
+exactly.  Predicates (transcriptions of the theorems) are evaluated on the implementation's observations: view,
+selection, isolation, restore, rejection, query/dispatch consistency, independence of the two managers.
+
+History format: ("set"|"enter", thread, manager, selector, local_threadsafe) | ("exit", thread, manager, exceptional)
+manager 0 = tensorly.backend, 1 = tensorly.tenalg; selector ("n", name code) | ("o", k) | ("f", k).
+A group is run in a mode: 0 / 1 = only that manager is driven and observed, 2 = both."""
 import itertools, os, queue, random, sys, threading, time
 from harness import common as C
 
 HEADER = """From Coq Require Import List Bool NArith Uint63. Import ListNotations.
-From TLV Require Import Model.Backend Corr.C17."""
+From TLV Require Import Model.Backend Corr.C17.
+Open Scope N_scope."""
 
 TIMEOUT = 180  # seconds a driver waits for a worker before declaring the harness stuck (HARNESS ERROR, never a verdict)
 
@@ -95,9 +101,14 @@ class Mgr:
 
     @classmethod
     def get(cls, tenalg):
+        tenalg = bool(tenalg)
         if tenalg not in cls._cache:
             cls._cache[tenalg] = Mgr(tenalg)
         return cls._cache[tenalg]
+
+    @classmethod
+    def both(cls):
+        return (cls.get(False), cls.get(True))
 
     def unmark(self):
         for k, obj in self.marked.values():
@@ -170,10 +181,24 @@ class Mgr:
         return (qc, d, routes)
 
 
+def observe_mode(mode):
+    """what the calling thread sees: (through tensorly.backend | None, through tensorly.tenalg | None)"""
+    out = []
+    for m in (0, 1):
+        if mode == 2 or mode == m:
+            try:
+                out.append(Mgr.get(m).observe())
+            except Exception as e:  # noqa
+                out.append((98, ("?", "observe raised " + repr(e)[:80]), []))
+        else:
+            out.append(None)
+    return tuple(out)
+
+
 # ----------------------------------------------------------------------------- threads
 class Worker:
-    def __init__(self, M, tid):
-        self.M, self.tid = M, tid
+    def __init__(self, mode, tid):
+        self.mode, self.tid = mode, tid
         self.q = queue.SimpleQueue()
         self.r = queue.SimpleQueue()
         self.thread = None
@@ -195,36 +220,30 @@ class Worker:
         except queue.Empty:
             raise HarnessStuck(f"thread {self.tid} did not answer {cmd!r}")
 
-    def obs(self):
-        try:
-            return self.M.observe()
-        except Exception as e:  # noqa
-            return (98, ("?", "observe raised " + repr(e)[:80]), [])
-
     def reply(self, res):
         """outcome of an operation + what THIS thread observes right after it (saves one hand-over per step)"""
-        self.r.put((res, self.obs()))
+        self.r.put((res, observe_mode(self.mode)))
 
     def body(self, depth):
         """serve commands at context depth `depth`; returns 'normal' (leave the innermost context normally)
         or 'stop'; raises Boom for an exceptional exit"""
-        M = self.M
-        mgr = M.mgr
         while True:
             cmd = self.q.get()
             k = cmd[0]
             if k == "obs":
-                self.r.put(self.obs())
+                self.r.put(observe_mode(self.mode))
             elif k == "set":
+                M = Mgr.get(cmd[1])
                 try:
-                    mgr.set_backend(M.sel_obj(cmd[1]), local_threadsafe=cmd[2])
+                    M.mgr.set_backend(M.sel_obj(cmd[2]), local_threadsafe=cmd[3])
                     self.reply("done")
                 except Exception as e:  # noqa
                     self.reply("rejected")
             elif k == "enter":
+                M = Mgr.get(cmd[1])
                 entered, how = False, "swallowed"
                 try:
-                    with mgr.backend_context(M.sel_obj(cmd[1]), local_threadsafe=cmd[2]):
+                    with M.mgr.backend_context(M.sel_obj(cmd[2]), local_threadsafe=cmd[3]):
                         entered = True
                         self.reply("done")
                         how = self.body(depth + 1)
@@ -246,13 +265,13 @@ class Worker:
                 return k
 
 
-def drive(M, history, main_worker, nthreads):
+def drive(mode, history, main_worker, nthreads):
     """run one history; thread 0 is the main thread.  If main_worker is None the main thread is the caller
     itself (passive observer, holds the import-time selection); otherwise it is an actor served by
     main_worker (the caller is then a helper thread).  Returns (obs0, [(outcome, obs)...])."""
     workers = {}
     for t in range(1, nthreads):
-        w = Worker(M, t)
+        w = Worker(mode, t)
         w.start()
         workers[t] = w
     if main_worker is not None:
@@ -264,7 +283,7 @@ def drive(M, history, main_worker, nthreads):
             if t == actor:
                 out.append(own)
             elif t == 0 and main_worker is None:
-                out.append(M.observe())
+                out.append(observe_mode(mode))
             else:
                 out.append(workers[t].call(("obs",)))
         return out
@@ -273,12 +292,10 @@ def drive(M, history, main_worker, nthreads):
         steps = []
         for op in history:
             kind, t = op[0], op[1]
-            if kind == "set":
-                res = workers[t].call(("set", op[2], op[3]))
-            elif kind == "enter":
-                res = workers[t].call(("enter", op[2], op[3]))
+            if kind in ("set", "enter"):
+                res = workers[t].call((kind, op[2], op[3], op[4]))
             else:
-                res = workers[t].call(("exit", op[2]))
+                res = workers[t].call(("exit", op[3]))
             if isinstance(res, tuple) and res and res[0] == "harness-error":
                 raise HarnessStuck(str(res))
             res, own = res
@@ -294,26 +311,29 @@ def drive(M, history, main_worker, nthreads):
                 w.thread.join(timeout=TIMEOUT)
 
 
-def run_histories(tenalg, main_actor, nthreads, histories):
-    """executed in a pool process: returns [(obs0, steps)] for every history"""
-    M = Mgr.get(tenalg)
+def run_histories(mode, main_actor, nthreads, histories):
+    """returns [(obs0, steps)] for every history; must be called from the MAIN thread of its process"""
+    Ms = Mgr.both()
     out = []
     if not main_actor:
         for h in histories:
+            for M in Ms:
+                M.reset()
+            out.append(drive(mode, h, None, nthreads))
+        for M in Ms:
             M.reset()
-            out.append(drive(M, h, None, nthreads))
-        M.reset()
         return out
     # the main thread becomes an actor: it serves a command queue while a helper thread drives
-    mw = Worker(M, 0)
+    mw = Worker(mode, 0)
     err = []
 
     def helper():
         try:
             for h in histories:
                 # unwind / reset happen in the main thread through its queue
-                mw.call(("set", ("n", 0), False))     # reply (outcome, observation) not needed here
-                out.append(drive(M, h, mw, nthreads))
+                for m in (0, 1):
+                    mw.call(("set", m, ("n", 0), False))
+                out.append(drive(mode, h, mw, nthreads))
                 mw.q.put(("stop",))          # leaves every context the main thread still has open
         except BaseException as e:  # noqa
             err.append(e)
@@ -324,67 +344,69 @@ def run_histories(tenalg, main_actor, nthreads, histories):
     while mw.body(0) != "quit":         # body returns at 'stop' (contexts unwound) and at 'quit'
         pass
     th.join(timeout=TIMEOUT)
-    M.reset()
+    for M in Ms:
+        M.reset()
     if err:
         raise err[0]
     return out
 
 
-def _pool_job(job):
-    tenalg, main_actor, nthreads, histories = job
-    return run_histories(tenalg, main_actor, nthreads, histories)
-
-
 # ----------------------------------------------------------------------------- histories
-SEL_EXH = [("n", 1), ("o", 1), ("n", 4)]      # a known name, an instance, an unknown name
+SEL_EXH = [("n", 1), ("o", 1), ("n", 4)]      # a known name, an instance, an unknown name (codes valid for both managers:
+#                                               backend: bka / instance of bkb / nosuch; tenalg: einsum / instance of tkb / nosuch)
+SEL_SMALL = [("o", 1), ("n", 4)]
 
 
-def alphabet(threads, sels):
+def alphabet(threads, managers, sels):
     al = []
     for t in threads:
-        for s in sels:
-            for l in (False, True):
-                al.append(("set", t, s, l))
-                al.append(("enter", t, s, l))
-        al.append(("exit", t, False))
-        al.append(("exit", t, True))
+        for m in managers:
+            for s in sels:
+                for l in (False, True):
+                    al.append(("set", t, m, s, l))
+                    al.append(("enter", t, m, s, l))
+            al.append(("exit", t, m, False))
+            al.append(("exit", t, m, True))
     return al
 
 
-def feasible(M, h):
-    """an Exit needs an open context of its thread (contexts open only for valid selections)"""
-    depth = {}
+def feasible(h):
+    """an Exit needs an open context of its thread, and it leaves the INNERMOST one (contexts of the two managers
+    nest on one Python stack); contexts open only for valid selections"""
+    stack = {}
     for op in h:
-        if op[0] == "enter" and M.sel_valid(op[2]):
-            depth[op[1]] = depth.get(op[1], 0) + 1
+        if op[0] == "enter" and Mgr.get(op[2]).sel_valid(op[3]):
+            stack.setdefault(op[1], []).append(op[2])
         elif op[0] == "exit":
-            if depth.get(op[1], 0) == 0:
+            st = stack.get(op[1])
+            if not st or st[-1] != op[2]:
                 return False
-            depth[op[1]] -= 1
+            st.pop()
     return True
 
 
-def exhaustive(M, threads, sels, n):
-    al = alphabet(threads, sels)
-    return [h for h in itertools.product(al, repeat=n) if feasible(M, h)]
+def exhaustive(threads, managers, sels, n):
+    al = alphabet(threads, managers, sels)
+    return [h for h in itertools.product(al, repeat=n) if feasible(h)]
 
 
-def random_history(M, rng, threads, maxlen):
+def random_history(rng, threads, managers, maxlen):
     n = rng.randint(1, maxlen)
-    depth = {t: 0 for t in threads}
-    names = list(M.names)
-    if not M.names_registered:
-        names = [k for k in names if k not in M.harness_names]
+    stack = {t: [] for t in threads}
     h = []
     p_exit = rng.choice([0.2, 0.35, 0.5])
     p_bad = rng.choice([0.1, 0.25])
     p_local = rng.choice([0.3, 0.5, 0.8])
     for _ in range(n):
         t = rng.choice(threads)
-        if depth[t] and rng.random() < p_exit:
-            h.append(("exit", t, rng.random() < 0.4))
-            depth[t] -= 1
+        if stack[t] and rng.random() < p_exit:
+            h.append(("exit", t, stack[t].pop(), rng.random() < 0.4))
             continue
+        m = rng.choice(managers)
+        M = Mgr.get(m)
+        names = list(M.names)
+        if not M.names_registered:
+            names = [k for k in names if k not in M.harness_names]
         r = rng.random()
         if r < p_bad:
             bad = [("n", k) for k in names if not M.sel_valid(("n", k))] + [("f", 0), ("f", 1)]
@@ -395,11 +417,11 @@ def random_history(M, rng, threads, maxlen):
             s = ("o", rng.randrange(len(M.pool)))
         l = rng.random() < p_local
         if rng.random() < 0.5:
-            h.append(("set", t, s, l))
+            h.append(("set", t, m, s, l))
         else:
-            h.append(("enter", t, s, l))
+            h.append(("enter", t, m, s, l))
             if M.sel_valid(s):
-                depth[t] += 1
+                stack[t].append(m)
     return tuple(h)
 
 
@@ -410,11 +432,12 @@ def sel_lit(s):
 
 
 def op_lit(op):
+    m = "true" if op[2] else "false"
     if op[0] == "set":
-        return f"Set_ {op[1]} {sel_lit(op[2])} {C.boolc(op[3])}"
+        return f"({m}, Set_ {op[1]} {sel_lit(op[3])} {C.boolc(op[4])})"
     if op[0] == "enter":
-        return f"Enter {op[1]} {sel_lit(op[2])} {C.boolc(op[3])}"
-    return f"Exit_ {op[1]} {C.boolc(op[2])}"
+        return f"({m}, Enter {op[1]} {sel_lit(op[3])} {C.boolc(op[4])})"
+    return f"({m}, Exit_ {op[1]} {C.boolc(op[3])})"
 
 
 OUTCOME = {"done": 0, "rejected": 1, "exitfailed": 2, "noctx": 3}
@@ -423,29 +446,32 @@ SELKIND = {"n": 0, "o": 1, "f": 2}
 
 def seen_digits(obs):
     ds = []
-    for o in obs:
-        q, d = o[0], o[1]
-        ds.append(q if 0 <= q < 63 else 63)
-        if d is None:
-            ds.append(0)
-        elif d[0] == "n" and d[1] < 6:
-            ds.append(2 + d[1])
-        elif d[0] == "o" and d[1] < 50:
-            ds.append(8 + d[1])
-        else:
-            ds.append(1)          # an object the harness cannot identify never agrees with the model
+    for per_thread in obs:
+        for o in per_thread:
+            if o is None:
+                continue
+            q, d = o[0], o[1]
+            ds.append(q if 0 <= q < 63 else 63)
+            if d is None:
+                ds.append(0)
+            elif d[0] == "n" and d[1] < 6:
+                ds.append(2 + d[1])
+            elif d[0] == "o" and d[1] < 50:
+                ds.append(8 + d[1])
+            else:
+                ds.append(1)          # an object the harness cannot identify never agrees with the model
     return ds
 
 
-def encode(tenalg, main_own, nthreads, history, result):
+def encode(mode, main_own, nthreads, history, result):
     """the digit stream decoded by Corr/C17.v `decode` (base-64 digits)"""
     obs0, steps = result
-    ds = [int(tenalg), nthreads, int(main_own)] + seen_digits(obs0) + [len(steps)]
+    ds = [mode, nthreads, int(main_own)] + seen_digits(obs0) + [len(steps)]
     for op, (res, obs) in zip(history, steps):
         if op[0] == "exit":
-            ds += [2, op[1], int(op[2]), 0, 0]
+            ds += [2 + 4 * op[2], op[1], int(op[3]), 0, 0]
         else:
-            ds += [0 if op[0] == "set" else 1, op[1], SELKIND[op[2][0]], op[2][1], int(op[3])]
+            ds += [(0 if op[0] == "set" else 1) + 4 * op[2], op[1], SELKIND[op[3][0]], op[3][1], int(op[4])]
         ds.append(OUTCOME.get(res, 3))
         ds += seen_digits(obs)
     assert all(0 <= d < 64 for d in ds), ds
@@ -464,17 +490,11 @@ def pack(ds):
     return "[" + "; ".join(f"{v}%uint63" for v in ints) + "]"
 
 
-def case_lit(cid, tenalg, main_own, nthreads, history, result, corrupt=False):
-    ds = encode(tenalg, main_own, nthreads, history, result)
-    if corrupt:
-        ds[-1] = (ds[-1] + 1) % 64        # the executing object seen last by the last thread becomes another one
-    return f"({cid}%N, {pack(ds)})"
-
-
 # ----------------------------------------------------------------------------- property predicates
-def predicates(M, nthreads, history, result):
-    """Transcriptions of the C17 theorems, evaluated on the implementation's observations only.
-    Returns a list of (predicate name, step index, message)."""
+def predicates_one(M, nthreads, history, result):
+    """Transcriptions of the C17 theorems for ONE manager, evaluated on the implementation's observations only.
+    history: operations of that manager; result: (obs0, steps) with one observation (name code, token, routes) per
+    thread.  Returns a list of (predicate name, step index, message)."""
     obs0, steps = result
     fails = []
 
@@ -511,25 +531,26 @@ def predicates(M, nthreads, history, result):
         t = op[1]
         others = [u for u in range(nthreads) if u != t]
         if op[0] in ("set", "enter"):
-            valid = M.sel_valid(op[2])
+            sel, loc = op[3], op[4]
+            valid = M.sel_valid(sel)
             if res == "rejected":
                 # C17_rejection: the whole (observable) state is unchanged
                 for u in range(nthreads):
                     if not same(obs[u], prev[u]):
                         fails.append(("C17_rejection", i, f"rejected {op[0]} by thread {t} changed what thread {u} observes: {prev[u][:2]} -> {obs[u][:2]}"))
                 if valid:
-                    fails.append(("C17_selected_is_current", i, f"valid selection {op[2]} was rejected"))
+                    fails.append(("C17_selected_is_current", i, f"valid selection {sel} was rejected"))
             elif res == "done":
                 if not valid:
-                    fails.append(("C17_rejection", i, f"selection {op[2]} that is neither an available name nor an instance of the manager's backend class was accepted"))
+                    fails.append(("C17_rejection", i, f"selection {sel} that is neither an available name nor an instance of the manager's backend class was accepted"))
                 else:
-                    tok = tok_of_sel(op[2])
+                    tok = tok_of_sel(sel)
                     if not matches(obs[t], tok):
                         fails.append(("C17_selected_is_current", i, f"thread {t} selected {tok} but observes {obs[t][:2]}"))
                     if op[0] == "enter":
-                        stack[t].append((prev[t], op[3], own[t], default))
+                        stack[t].append((prev[t], loc, own[t], default))
                     own[t] = tok
-                    if op[3]:
+                    if loc:
                         for u in others:      # C17_isolation_step
                             if not same(obs[u], prev[u]):
                                 fails.append(("C17_isolation_step", i, f"thread-local {op[0]} by thread {t} changed what thread {u} observes: {prev[u][:2]} -> {obs[u][:2]}"))
@@ -543,9 +564,9 @@ def predicates(M, nthreads, history, result):
                 continue          # not an operation of the implementation (generator never issues it)
             before, local, own_before, _ = stack[t].pop()
             if res != "done":
-                fails.append(("C17_exit_succeeds", i, f"leaving the context of thread {t} ({'exception' if op[2] else 'normal'}) ended abnormally: {res}"))
+                fails.append(("C17_exit_succeeds", i, f"leaving the context of thread {t} ({'exception' if op[3] else 'normal'}) ended abnormally: {res}"))
             if not same(obs[t], before):      # C17_restore
-                fails.append(("C17_restore", i, f"thread {t} observed {before[:2]} before entering and {obs[t][:2]} after leaving the context ({'exception' if op[2] else 'normal'} exit)"))
+                fails.append(("C17_restore", i, f"thread {t} observed {before[:2]} before entering and {obs[t][:2]} after leaving the context ({'exception' if op[3] else 'normal'} exit)"))
             # the restore is an effective selection of the saved backend with the context's flag
             saved_tok = before[1] if before[1] is not None else ("n", before[0])
             own[t] = saved_tok
@@ -554,7 +575,7 @@ def predicates(M, nthreads, history, result):
                     if not same(obs[u], prev[u]):
                         fails.append(("C17_isolation_step", i, f"leaving a thread-local context in thread {t} changed what thread {u} observes: {prev[u][:2]} -> {obs[u][:2]}"))
             else:
-                default = saved_tok
+                default = saved_tok           # C17_global_exit_published
         # C17_view: own selection else the shared default, for EVERY thread
         for u in range(nthreads):
             exp = own[u] if own[u] is not None else default
@@ -564,43 +585,61 @@ def predicates(M, nthreads, history, result):
     return fails
 
 
-# ----------------------------------------------------------------------------- run
-def make_jobs(tier, rng):
-    """returns list of (tenalg, main_actor, nthreads, [histories]) groups"""
-    groups = []
-    for tenalg in (False, True):
-        M = Mgr.get(tenalg)
-        sels = SEL_EXH if M.names_registered else [("o", 0), ("o", 1), ("n", 4)]
-        n = 3 if tier == "quick" else 4
-        # workers 1 and 2 act, the main thread (holding the import-time selection) observes
-        groups.append((tenalg, False, 3, exhaustive(M, [1, 2], sels, n), f"exhaustive-{n}"))
-        # the main thread acts as well: all histories of length 2 over main + one worker
-        groups.append((tenalg, True, 2, exhaustive(M, [0, 1], sels, 2 if tier == "quick" else 3), "exhaustive-main"))
-        nr = 1500 if tier == "quick" else 15000
-        ml = 12 if tier == "quick" else 40
-        groups.append((tenalg, True, 3, [random_history(M, rng, [0, 1, 2], ml) for _ in range(nr)], "random-3-main"))
-        groups.append((tenalg, False, 4, [random_history(M, rng, [1, 2, 3], ml) for _ in range(nr // 3)], "random-3-workers"))
-    return groups
+def predicates(mode, nthreads, history, result):
+    """all predicates for a history in mode 0 / 1 / 2; step indices refer to `history`"""
+    obs0, steps = result
+    fails = []
+    managers = (0, 1) if mode == 2 else (mode,)
+    if mode == 2:
+        # C17_other_manager_untouched: an operation on one manager changes nothing any thread sees through the other
+        prev = obs0
+        for i, (op, (res, obs)) in enumerate(zip(history, steps)):
+            other = 1 - op[2]
+            for u in range(nthreads):
+                a, b = prev[u][other], obs[u][other]
+                if a[0] != b[0] or a[1] != b[1]:
+                    fails.append(("C17_other_manager_untouched", i,
+                                  f"{op[0]} on {'tensorly.tenalg' if op[2] else 'tensorly.backend'} by thread {op[1]} changed what thread {u} "
+                                  f"observes through {'tensorly.tenalg' if other else 'tensorly.backend'}: {a[:2]} -> {b[:2]}"))
+            prev = obs
+    for m in managers:
+        idx = [i for i, op in enumerate(history) if op[2] == m]
+        hm = [history[i] for i in idx]
+        rm = ([o[m] for o in obs0], [(steps[i][0], [o[m] for o in steps[i][1]]) for i in idx])
+        for (pred, j, msg) in predicates_one(Mgr.get(m), nthreads, hm, rm):
+            fails.append((pred, idx[j] if j >= 0 else -1, ("tensorly.tenalg: " if m else "tensorly.backend: ") + msg))
+    fails.sort(key=lambda f: f[1])
+    return fails
 
 
-def corpus_histories():
-    import json
-    d = os.path.join(C.VERIF, "corpus", "C17")
+# ----------------------------------------------------------------------------- pool jobs
+def _pool_job(job):
+    """executed in a pool process (in its main thread): drives the histories and digests the results there:
+    per history (case literal without id, first predicate failure | None, [operation:outcome ...]);
+    plus, for the first history, a copy of its literal with ONE observation altered (sentinel) and a sample"""
+    mode, main_actor, nthreads, histories = job
+    results = run_histories(mode, main_actor, nthreads, histories)
     out = []
-    if os.path.isdir(d):
-        for fn in sorted(os.listdir(d)):
-            if fn.endswith(".json"):
-                e = json.load(open(os.path.join(d, fn)))
-                out.append((bool(e["tenalg"]), bool(e["main_actor"]), int(e["nthreads"]), hist_from_json(e["history"])))
-    return out
-
-
-def hist_to_json(h):
-    return [list(op[:2]) + ([list(op[2]), op[3]] if op[0] != "exit" else [op[2]]) for op in h]
-
-
-def hist_from_json(j):
-    return tuple((o[0], o[1], tuple(o[2]), bool(o[3])) if o[0] != "exit" else (o[0], o[1], bool(o[2])) for o in j)
+    for h, r in zip(histories, results):
+        ds = encode(mode, True, nthreads, h, r)
+        fails = predicates(mode, nthreads, h, r)
+        outs = []
+        for op, (res, _) in zip(h, r[1]):
+            outs.append(f"{'tenalg' if op[2] else 'backend'}.{op[0]}{'/local' if op[0] != 'exit' and op[4] else ''}"
+                        f"{'/exception' if op[0] == 'exit' and op[3] else ''}:{res}")
+        out.append((pack(ds), fails[0] if fails else None, outs))
+    extra = None
+    if histories:
+        h, r = histories[0], results[0]
+        ds = encode(mode, True, nthreads, h, r)
+        ds[-1] = (ds[-1] + 1) % 64          # the executing object seen last by the last thread becomes another one
+        Ms = Mgr.both()
+        sample = {"mode": ["tensorly.backend", "tensorly.tenalg", "both managers"][mode], "threads": nthreads,
+                  "main_thread_acts": main_actor, "history": [op_lit(o) for o in h],
+                  "observed_after_each_step": [[[(Ms[m].names.get(o[m][0], o[m][0]), o[m][1]) for m in (0, 1) if o[m] is not None]
+                                                for o in obs] for _, obs in r[1]]}
+        extra = (pack(ds), sample)
+    return out, extra
 
 
 def execute(groups, nproc):
@@ -614,15 +653,71 @@ def execute(groups, nproc):
             jobs.append((g[0], g[1], g[2], hs[k:k + step]))
             index.append((gi, k))
     results = [[None] * len(g[3]) for g in groups]
+    extras = []
     if nproc <= 1:
         outs = [_pool_job(j) for j in jobs]
     else:
         ctx = mp.get_context("fork")
         with ctx.Pool(nproc) as pool:
             outs = pool.map(_pool_job, jobs, chunksize=1)
-    for (gi, k), out in zip(index, outs):
+    for (gi, k), (out, extra) in zip(index, outs):
         results[gi][k:k + len(out)] = out
-    return results
+        extras.append((gi, k, extra))
+    return results, extras
+
+
+# ----------------------------------------------------------------------------- run
+def make_groups(tier, rng):
+    """returns list of (mode, main_actor, nthreads, [histories], tag)"""
+    Ms = Mgr.both()
+    groups = []
+    quick = tier == "quick"
+    for m in (0, 1):
+        M = Ms[m]
+        sels = SEL_EXH if M.names_registered else [("o", 0), ("o", 1), ("n", 4)]
+        # workers 1 and 2 act, the main thread (holding the import-time selection) observes
+        groups.append((m, False, 3, exhaustive([1, 2], [m], sels, 3), "exhaustive-3"))
+        if not quick:
+            small = SEL_SMALL if M.names_registered else [("o", 1), ("n", 4)]
+            groups.append((m, False, 3, exhaustive([1, 2], [m], small, 4), "exhaustive-4-small-alphabet"))
+        # the main thread acts as well: all histories of length 2 (thorough: 3) over main + one worker
+        groups.append((m, True, 2, exhaustive([0, 1], [m], sels, 2 if quick else 3), "exhaustive-main"))
+        nr = 1000 if quick else 8000
+        ml = 12 if quick else 40
+        groups.append((m, True, 3, [random_history(rng, [0, 1, 2], [m], ml) for _ in range(nr)], "random-3-main"))
+        groups.append((m, False, 4, [random_history(rng, [1, 2, 3], [m], ml) for _ in range(nr // 3)], "random-3-workers"))
+    # both managers in one history, every thread observes both after every step
+    groups.append((2, True, 2, exhaustive([0, 1], [0, 1], SEL_SMALL, 2), "mixed-exhaustive-2"))
+    if not quick:
+        groups.append((2, False, 3, exhaustive([1, 2], [0, 1], SEL_SMALL, 3), "mixed-exhaustive-3"))
+    nr = 1200 if quick else 8000
+    groups.append((2, True, 3, [random_history(rng, [0, 1, 2], [0, 1], 12 if quick else 30) for _ in range(nr)], "mixed-random-3-main"))
+    return groups
+
+
+def corpus_histories():
+    import json
+    d = os.path.join(C.VERIF, "corpus", "C17")
+    out = []
+    if os.path.isdir(d):
+        for fn in sorted(os.listdir(d)):
+            if fn.endswith(".json"):
+                e = json.load(open(os.path.join(d, fn)))
+                out.append((int(e["mode"]), bool(e["main_actor"]), int(e["nthreads"]), hist_from_json(e["history"])))
+    return out
+
+
+def hist_to_json(h):
+    return [list(op[:3]) + ([list(op[3]), op[4]] if op[0] != "exit" else [op[3]]) for op in h]
+
+
+def hist_from_json(j):
+    return tuple((o[0], int(o[1]), int(o[2]), (o[3][0], int(o[3][1])), bool(o[4])) if o[0] != "exit"
+                 else (o[0], int(o[1]), int(o[2]), bool(o[3])) for o in j)
+
+
+ENTRY = {0: "tensorly.set_backend/backend_context", 1: "tensorly.tenalg.set_backend/backend_context",
+         2: "tensorly.set_backend/backend_context + tensorly.tenalg.set_backend/backend_context"}
 
 
 def run(chk):
@@ -630,48 +725,54 @@ def run(chk):
     chk.build_proofs()
     C.reset_backends()
     t0 = time.time()
-    groups = make_jobs(chk.tier, rng)
-    for (tenalg, main_actor, nthreads, h) in corpus_histories():
-        groups.insert(0, (tenalg, main_actor, nthreads, [h], "corpus"))
-    nproc = max(1, min(8, C.NPROC // 2))
-    results = execute(groups, nproc)
+    groups = make_groups(chk.tier, rng)
+    for (mode, main_actor, nthreads, h) in corpus_histories():
+        groups.insert(0, (mode, main_actor, nthreads, [h], "corpus"))
+    nproc = max(1, min(16, C.NPROC))
+    results, extras = execute(groups, nproc)
     t_impl = time.time() - t0
-    cases, meta = [], []
+    for M in Mgr.both():
+        M.reset()
+        M.unmark()
+    # sentinels: copies of real cases with ONE observation altered must be reported as failing; they come FIRST so
+    # that they stay inside the (capped) list of disagreeing ids of their shard
+    cases, meta, found = [], [], []
+    sentinels = []
+    picks = [e for e in extras if e[2]]
+    for (gi, k, extra) in [picks[0], picks[len(picks) // 2], picks[-1]] if picks else []:
+        sentinels.append(len(cases))
+        cases.append(f"({len(cases)}, {extra[0]})")
+        meta.append(None)
     for g, res in zip(groups, results):
-        tenalg, main_actor, nthreads, hs, tag = g
-        M = Mgr.get(tenalg)
-        for h, r in zip(hs, res):
+        mode, main_actor, nthreads, hs, tag = g
+        gname = ["backend:", "tenalg:", "both:"][mode] + tag
+        for h, (lit, fail, outs) in zip(hs, res):
             cid = len(cases)
-            cases.append(case_lit(cid, tenalg, True, nthreads, h, r))
-            meta.append((tenalg, main_actor, nthreads, h, tag, r))
+            cases.append(f"({cid}, {lit})")
+            meta.append((mode, main_actor, nthreads, h, tag))
             nontrivial = len({op[1] for op in h}) > 1 and any(op[0] == "enter" for op in h)
-            chk.count(key=(tenalg, main_actor, h), nontrivial=nontrivial)
-            chk.hist("group", ("tenalg:" if tenalg else "backend:") + tag)
+            chk.count(key=(mode, main_actor, h), nontrivial=nontrivial)
+            chk.hist("group", gname)
             chk.hist("length", len(h))
-            for op, (out, _) in zip(h, r[1]):
-                chk.hist("operation", f"{op[0]}{'/local' if op[0] != 'exit' and op[3] else ''}{'/exception' if op[0] == 'exit' and op[2] else ''}:{out}")
-            if cid % 4001 == 17:
-                chk.sample({"manager": "tensorly.tenalg" if tenalg else "tensorly.backend", "threads": nthreads,
-                            "main_thread_acts": main_actor, "history": [op_lit(o) for o in h],
-                            "observed_after_each_step": [[(M.names.get(o[0], o[0]), o[1]) for o in obs] for _, obs in r[1]]})
-            for (pred, i, msg) in predicates(M, nthreads, h, r):
-                chk.finding("tensorly.tenalg.set_backend/backend_context" if tenalg else "tensorly.set_backend/backend_context",
-                            {"tenalg": tenalg, "main_actor": main_actor, "nthreads": nthreads, "history": hist_to_json(h[:i + 1])},
-                            f"step {i} ({op_lit(h[i]) if i >= 0 else 'start'}): {msg}", pred)
-                break
-    for tenalg in (False, True):
-        Mgr.get(tenalg).reset()
-        Mgr.get(tenalg).unmark()
-    # sentinels: copies of real cases with ONE observation altered must be reported as failing
-    sentinels = {}
-    for k in (0, len(meta) // 2, len(meta) - 1):
-        tenalg, main_actor, nthreads, h, tag, r = meta[k]
-        sentinels[len(cases)] = k
-        cases.append(case_lit(len(cases), tenalg, True, nthreads, h, r, corrupt=True))
+            for o in outs:
+                chk.hist("operation", o)
+            if fail is not None:
+                found.append((len(h), cid, fail))
+    # shortest failing histories first; every finding carries the prefix of the history up to the failing step
+    found.sort()
+    for (_, cid, (pred, i, msg)) in found[:60]:
+        mode, main_actor, nthreads, h, tag = meta[cid]
+        chk.finding(ENTRY[mode], {"mode": mode, "main_actor": main_actor, "nthreads": nthreads, "history": hist_to_json(h[:i + 1])},
+                    f"step {i} ({op_lit(h[i]) if i >= 0 else 'start'}): {msg}", pred)
+    if len(found) > 60:
+        chk.notes.append(f"{len(found)} histories violate a predicate; the 60 shortest are reported")
+    for (gi, k, extra) in extras[::max(1, len(extras) // 4)]:
+        if extra:
+            chk.sample(extra[1])
     t1 = time.time()
     failing, n_eval, broken = C.run_case_shards("C17", HEADER, "case", cases, shard=2500, timeout=900)
     # a shard killed by the shell timeout (overloaded machine) is "not evaluated", never an alarm: its cases are
-    # counted as skipped; the sentinels sit in the LAST shard, so a run in which that one is lost reports it
+    # counted as skipped (a run in which the FIRST shard, which holds the sentinels, is lost cannot vouch for the comparator)
     timed_out = [b for b in broken if b.get("rc") == 124]
     broken = [b for b in broken if b.get("rc") != 124]
     chk.cov["model_seconds"] = round(time.time() - t1, 1)
@@ -685,21 +786,25 @@ def run(chk):
     chk.cov["traces_validated_against_impl"] = n_eval
     chk.cov["exhaustive"] = True
     chk.cov["impl_seconds"] = round(t_impl, 1)
-    chk.cov["rule"] = ("for BOTH managers: every feasible history of length 3 (thorough: 4; all shorter ones are their prefixes and are observed on the way) over the "
+    chk.cov["rule"] = ("for EACH manager: every feasible history of length 3 (all shorter ones are their prefixes and are observed on the way) over the "
                        "28-letter alphabet {set, enter} x {known name, instance, unknown name} x {global, local} + exit {normal, exception} of two worker threads "
-                       "with the main thread observing; every history of length 2 (thorough: 3) over the main thread and one worker; random histories to length 12 "
-                       "(thorough: 40) over three actor threads with and without the main thread among them, selectors: all names (stock, harness-registered, "
-                       "listed-but-not-importable, unknown, wrong case), four instances of two harness backend classes, two non-instances. After EVERY operation "
-                       "EVERY thread reports get_backend() and the identity of the object executing a dispatched call. "
-                       "Non-trivial = at least two threads act and a context is entered; distinct key = (manager, main-thread role, history)")
+                       "with the main thread observing (thorough adds length 4 over the 20-letter alphabet without the known name); every history of length 2 "
+                       "(thorough: 3) over the main thread and one worker; random histories to length 12 (thorough: 40) over three actor threads with and without "
+                       "the main thread among them, selectors: all names (stock, harness-registered, listed-but-not-importable, unknown, wrong case, a name of the "
+                       "OTHER manager), four instances of two harness backend classes, two non-instances. BOTH managers in one history: every history of length 2 "
+                       "(thorough: 3 over two workers) over {main, worker} x {backend, tenalg} x {instance, unknown name}, random histories to length 12 (30) over "
+                       "three threads incl. main, every thread observing both managers. After EVERY operation EVERY thread reports get_backend() and the identity "
+                       "of the object executing a dispatched call. Non-trivial = at least two threads act and a context is entered; distinct key = (mode, "
+                       "main-thread role, history). At most 40 disagreeing cases per shard of 2500 are listed")
     for b in broken:
         chk.broken.append({"what": "correspondence corr:C17 shard not evaluated", "detail": b})
     for i in sorted(failing):
-        tenalg, main_actor, nthreads, h, tag, _ = meta[i]
+        mode, main_actor, nthreads, h, tag = meta[i]
         chk.disagreement("corr:C17 (Model/Backend.v vs tensorly.backend / tensorly.tenalg managers)",
-                         {"tenalg": tenalg, "main_actor": main_actor, "nthreads": nthreads, "history": hist_to_json(h)})
+                         {"mode": mode, "main_actor": main_actor, "nthreads": nthreads, "history": hist_to_json(h)})
     chk.assumptions = ["operations are atomic: the driver issues one operation at a time and waits for it (the property quantifies over interleavings of whole operations)",
                        "the instance load_backend creates for a name is identified with the name (the identity of cached instances is not part of the property)",
+                       "contexts of the two managers opened by one thread are left innermost-first (they are `with` blocks on one Python stack)",
                        "CPython threads; threading.local storage of a fresh thread is empty"]
     chk.trusted = ["marker methods/attributes on harness backend subclasses and on the stock instances reveal the executing object of a dispatched call",
                    "the harness appends its two backend names to the manager's available_backend_names so that they can be selected by name"]
@@ -711,12 +816,13 @@ def replay(payload):
         print("replay file names a broken theorem/correspondence, not an input:", payload.get("theorem_or_correspondence"))
         return 1
     inp = payload["inputs"]
-    tenalg, main_actor, nthreads = bool(inp["tenalg"]), bool(inp["main_actor"]), int(inp["nthreads"])
+    mode, main_actor, nthreads = int(inp["mode"]), bool(inp["main_actor"]), int(inp["nthreads"])
     h = hist_from_json(inp["history"])
-    M = Mgr.get(tenalg)
-    r = run_histories(tenalg, main_actor, nthreads, [h])[0]
-    M.unmark()
-    fails = predicates(M, nthreads, h, r)
+    Ms = Mgr.both()
+    r = run_histories(mode, main_actor, nthreads, [h])[0]
+    for M in Ms:
+        M.unmark()
+    fails = predicates(mode, nthreads, h, r)
     for f in fails[:5]:
         print("replay:", f)
     if not fails:
